@@ -145,7 +145,7 @@ ORACLES = [
     {'name': 'small-scope rule files and transactions through parse_merchants().match and get_all_rules()+normalize_merchant '
              '(.rules and legacy CSV), against a first-match specification; includes deletion of non-matching rules and '
              'appending rules after the winner', 'script': 'C01.py',
-     'bound': 'rule lists of length <= 3 (quick) / 4 (thorough) over a pool of 16 rules (categorizing, tag-only, failing, with let/variables, apostrophes), 7 transactions incl. amount 0.00; legacy CSV lists <= 3 of 9; transforms incl. capitalised targets and field None; CSV regular expressions shaped like expressions'},
+     'bound': 'rule lists of length <= 3 (quick, over 16 of the rules) / <= 3 and a 1-in-8 sample of length 4 (thorough) over a pool of 26 rules (categorizing, tag-only, failing, with let/variables, apostrophes, escape-case twin regular expressions), 8 transactions incl. amount 0.00; legacy CSV lists <= 3 of 10 (incl. a blank Merchant cell); transforms incl. capitalised targets and field None; CSV regular expressions shaped like expressions'},
 ]
 TRUSTED_BASE = [
     'pyvc symbolic executor', 'z3 5.1.0 / cvc5 1.0.3',
